@@ -8,6 +8,7 @@ void multiruncrypt_file(u8_t id, Aesmode &mode)
 {
   buffergroup *iobuffer = buffergroup::get_instance();
   WENCRY_VERIF_POINT(WV_WORKER_START, id);
+  iobuffer->wait_buffer_loaded(id);
   for (u8_t *block = iobuffer->require_buffer_entry(id); block != NULL; block = iobuffer->require_buffer_entry(id))
   {
     mode.runcry(block);
